@@ -223,4 +223,164 @@ theorem accepted_payload_or_collision (magic : UInt32) (K : Bytes → Option Byt
   · exact Or.inl e
   · exact Or.inr ⟨_, _, e, by rw [hc, hsum]⟩
 
+/-! ## single-byte corruptions -/
+/-- changing one byte of a little-endian string changes its value -/
+theorem ofLe_set_ne (l : Bytes) (i : Nat) (b : UInt8) (hi : i < l.length) (hb : l[i]? ≠ some b) : ofLe (l.set i b) ≠ ofLe l := by
+  induction l generalizing i with
+  | nil => simp at hi
+  | cons x xs ih =>
+    cases i with
+    | zero =>
+      simp only [List.set_cons_zero, ofLe]
+      have hx : x ≠ b := by intro c; subst c; simp at hb
+      have := x.toNat_lt; have := b.toNat_lt
+      intro c
+      apply hx
+      apply UInt8.toNat_inj.mp
+      omega
+    | succ i =>
+      simp only [List.set_cons_succ, ofLe]
+      have := ih i (by simpa using hi) (by simpa using hb)
+      omega
+
+theorem set_ne_self (l : Bytes) (i : Nat) (b : UInt8) (hi : i < l.length) (hb : l[i]? ≠ some b) : l.set i b ≠ l := by
+  intro c
+  have : (l.set i b)[i]? = some b := by simp [hi]
+  rw [c] at this
+  exact hb this
+
+
+theorem ofLe_lt (bs : Bytes) : ofLe bs < 256 ^ bs.length := by
+  induction bs with
+  | nil => simp [ofLe]
+  | cons b bs ih =>
+    simp only [ofLe, List.length_cons, Nat.pow_succ]
+    have := b.toNat_lt
+    omega
+
+theorem fields_of_parts (A B C D P : Bytes) (hA : A.length = 4) (hB : B.length = 12) (hC : C.length = 4) (hD : D.length = 4) :
+    hdrMagic (A ++ (B ++ (C ++ (D ++ P)))) = UInt32.ofNat (ofLe A) ∧ hdrCmd (A ++ (B ++ (C ++ (D ++ P)))) = B ∧
+    hdrLen (A ++ (B ++ (C ++ (D ++ P)))) = ofLe C ∧ hdrSum (A ++ (B ++ (C ++ (D ++ P)))) = D ∧
+    hdrBody (A ++ (B ++ (C ++ (D ++ P)))) = P := by
+  refine ⟨?_, ?_, ?_, ?_, ?_⟩
+  · simp only [hdrMagic]; rw [show (4 : Nat) = A.length from hA.symm, List.take_left]
+  · simp only [hdrCmd, MSG_CMD_LEN]
+    rw [show (4 : Nat) = A.length from hA.symm, List.drop_left, show (12 : Nat) = B.length from hB.symm, List.take_left]
+  · simp only [hdrLen]
+    rw [show (16 : Nat) = (A ++ B).length by simp [hA, hB], ← List.append_assoc, List.drop_left,
+      show (4 : Nat) = C.length from hC.symm, List.take_left]
+  · simp only [hdrSum, CHECKSUM_LEN]
+    rw [show A ++ (B ++ (C ++ (D ++ P))) = (A ++ B ++ C) ++ (D ++ P) by simp [List.append_assoc],
+      show (20 : Nat) = (A ++ B ++ C).length by simp [hA, hB, hC], List.drop_left,
+      show (4 : Nat) = D.length from hD.symm, List.take_left]
+  · simp only [hdrBody, MSG_HDR_LEN]
+    rw [show A ++ (B ++ (C ++ (D ++ P))) = (A ++ B ++ C ++ D) ++ P by simp [List.append_assoc],
+      show (24 : Nat) = (A ++ B ++ C ++ D).length by simp [hA, hB, hC, hD], List.drop_left]
+
+/-- Every single-byte corruption of a written frame outside the command field is rejected, or exhibits a collision of the
+32-bit checksum (corruptions of the command field can turn one known command into another, e.g. ping/pong: the header is
+not covered by the checksum). -/
+theorem single_byte_corruption (magic : UInt32) (K : Bytes → Option Bytes) (H : Bytes → Bytes) (k : Kind) (p : Bytes)
+    (hp : p.length ≤ MAX_PAYLOAD_LEN) (hc : (checksum H p).length = CHECKSUM_LEN) (i : Nat) (b : UInt8)
+    (hi : i < (frameOf magic H k p).length) (hb : (frameOf magic H k p)[i]? ≠ some b) (hcmd : i < 4 ∨ 16 ≤ i) :
+    (∀ res, readMessage magic K H ((frameOf magic H k p).set i b) ≠ .ok res) ∨ Collision4 H := by
+  have hp32 : p.length < 2 ^ 32 := by simp only [MAX_PAYLOAD_LEN] at hp; omega
+  have hA := wU32_length magic
+  have hB : (cmdField k).length = 12 := cmdField_length k
+  have hC := wU32_length (UInt32.ofNat p.length)
+  have hD : (checksum H p).length = 4 := hc
+  have hn : (UInt32.ofNat p.length).toNat = p.length := by simp [UInt32.toNat_ofNat']; omega
+  have ef : frameOf magic H k p = wU32 magic ++ (cmdField k ++ (wU32 (UInt32.ofNat p.length) ++ (checksum H p ++ p))) := by
+    simp [frameOf, List.append_assoc]
+  rw [ef] at hi hb ⊢
+  simp only [List.length_append, hA, hB, hC, hD] at hi
+  by_cases h4 : i < 4
+  · -- magic
+    left
+    intro ⟨m, len, rest⟩ c
+    rw [List.set_append, if_pos (by omega)] at c
+    have hb' : (wU32 magic)[i]? ≠ some b := by
+      rw [List.getElem?_append_left (by omega)] at hb; exact hb
+    obtain ⟨fm, _, _, _, _⟩ := fields_of_parts ((wU32 magic).set i b) (cmdField k) (wU32 (UInt32.ofNat p.length)) (checksum H p) p
+      (by simp [hA]) hB hC hD
+    have hm := (readMessage_accepts magic K H _ m len rest c).2.1
+    rw [fm] at hm
+    have hne := ofLe_set_ne (wU32 magic) i b (by omega) hb'
+    have h1 := ofLe_lt ((wU32 magic).set i b)
+    simp only [List.length_set, hA] at h1
+    have h2 : ofLe (wU32 magic) = magic.toNat := ofLe_wU32 magic
+    have : (UInt32.ofNat (ofLe ((wU32 magic).set i b))).toNat = magic.toNat := by rw [hm]
+    simp only [UInt32.toNat_ofNat'] at this
+    have : ofLe ((wU32 magic).set i b) % 2 ^ 32 = ofLe ((wU32 magic).set i b) := Nat.mod_eq_of_lt (by omega)
+    omega
+  · have h16 : 16 ≤ i := by rcases hcmd with h | h <;> omega
+    -- split off magic and command
+    have e1 : (wU32 magic ++ (cmdField k ++ (wU32 (UInt32.ofNat p.length) ++ (checksum H p ++ p)))).set i b =
+        wU32 magic ++ (cmdField k ++ ((wU32 (UInt32.ofNat p.length) ++ (checksum H p ++ p)).set (i - 16) b)) := by
+      rw [List.set_append, if_neg (by omega), List.set_append, if_neg (by omega)]
+      congr 3; omega
+    have hb1 : (wU32 (UInt32.ofNat p.length) ++ (checksum H p ++ p))[i - 16]? ≠ some b := by
+      rw [List.getElem?_append_right (by omega), List.getElem?_append_right (by omega)] at hb
+      rw [hA, hB] at hb
+      have : i - 4 - 12 = i - 16 := by omega
+      rw [this] at hb; exact hb
+    rw [e1]
+    by_cases hnacc : ¬ ∃ res, readMessage magic K H (wU32 magic ++ (cmdField k ++ ((wU32 (UInt32.ofNat p.length) ++ (checksum H p ++ p)).set (i - 16) b))) = .ok res
+    · left; intro res c; exact hnacc ⟨res, c⟩
+    obtain ⟨⟨m, len, rest⟩, c⟩ := Classical.not_not.mp hnacc
+    by_cases h20 : i < 20
+    · -- length field: the accepted payload is a proper prefix of p with the same checksum
+      right
+      rw [List.set_append, if_pos (by omega)] at c
+      have hb' : (wU32 (UInt32.ofNat p.length))[i - 16]? ≠ some b := by
+        rw [List.getElem?_append_left (by omega)] at hb1; exact hb1
+      obtain ⟨_, _, fl, fs, fb⟩ := fields_of_parts (wU32 magic) (cmdField k) ((wU32 (UInt32.ofNat p.length)).set (i - 16) b) (checksum H p) p
+        hA hB (by simp [hC]) hD
+      obtain ⟨_, _, hlen, _, hle, hsum, _, _⟩ := readMessage_accepts magic K H _ m len rest c
+      rw [fb] at hle hsum
+      rw [fs] at hsum
+      rw [fl] at hlen
+      have hne := ofLe_set_ne (wU32 (UInt32.ofNat p.length)) (i - 16) b (by omega) hb'
+      rw [ofLe_wU32, hn] at hne
+      have hlt : len < p.length := by omega
+      refine ⟨p.take len, p, ?_, hsum⟩
+      intro e
+      have := congrArg List.length e
+      simp only [List.length_take] at this
+      omega
+    · by_cases h24 : i < 24
+      · -- checksum field
+        exfalso
+        rw [List.set_append, if_neg (by omega), List.set_append, if_pos (by omega)] at c
+        have hb' : (checksum H p)[i - 16 - 4]? ≠ some b := by
+          rw [List.getElem?_append_right (by omega), List.getElem?_append_left (by omega)] at hb1
+          rw [hC] at hb1; exact hb1
+        rw [hC] at c
+        obtain ⟨_, _, fl, fs, fb⟩ := fields_of_parts (wU32 magic) (cmdField k) (wU32 (UInt32.ofNat p.length)) ((checksum H p).set (i - 16 - 4) b) p
+          hA hB hC (by simp [hD])
+        obtain ⟨_, _, hlen, _, hle, hsum, _, _⟩ := readMessage_accepts magic K H _ m len rest c
+        rw [fb] at hsum
+        rw [fs] at hsum
+        rw [fl, ofLe_wU32, hn] at hlen
+        rw [hlen, List.take_length] at hsum
+        exact set_ne_self (checksum H p) (i - 16 - 4) b (by omega) hb' hsum.symm
+      · -- payload
+        right
+        rw [List.set_append, if_neg (by omega), List.set_append, if_neg (by omega)] at c
+        rw [hC, hD] at c
+        have hb' : p[i - 16 - 4 - 4]? ≠ some b := by
+          rw [List.getElem?_append_right (by omega), List.getElem?_append_right (by omega)] at hb1
+          rw [hC, hD] at hb1; exact hb1
+        obtain ⟨_, _, fl, fs, fb⟩ := fields_of_parts (wU32 magic) (cmdField k) (wU32 (UInt32.ofNat p.length)) (checksum H p) (p.set (i - 16 - 4 - 4) b)
+          hA hB hC hD
+        obtain ⟨_, _, hlen, _, hle, hsum, _, _⟩ := readMessage_accepts magic K H _ m len rest c
+        rw [fb] at hsum
+        rw [fs] at hsum
+        rw [fl, ofLe_wU32, hn] at hlen
+        have : (p.set (i - 16 - 4 - 4) b).take len = p.set (i - 16 - 4 - 4) b := by
+          rw [hlen]; exact List.take_of_length_le (by simp)
+        rw [this] at hsum
+        exact ⟨_, _, set_ne_self p (i - 16 - 4 - 4) b (by omega) hb', hsum⟩
+
+
 end Poly.Model.SchemaP2P
